@@ -320,7 +320,12 @@ class ElementList(MutableSequence):
         if isinstance(value, basestring):  # if the value is a basestring, parse it
             child = self.element.parse_child(value, child_name=child_name, reference=child_ref)
         elif isinstance(value, Element):  # it is already an instance of Element
-            child = value
+            if value.parent is not None and value.parent != self.element and value.name == child_name:
+                # it is a child of another element: copy it, as it is done for the ElementProxy
+                # (e.g. message.pid = message2.pid[0]), otherwise it would be a child of both
+                child = self.element.parse_child(value.to_er7(), child_name=child_name, reference=child_ref)
+            else:
+                child = value
         elif isinstance(value, BaseDataType):
             child = self.create_element(name, False, reference)
             child.value = value
